@@ -48,7 +48,7 @@ class Experiment:
                          'Fluorescence Channels': getattr(self, 'fl_pad', ('', ''))[0] + ', '.join(d['fl']) + getattr(self, 'fl_pad', ('', ''))[1], 'Time Channel': d['time']})
         return pd.DataFrame(rows).set_index('ID')
 
-    def write_fcs(self, name, iid, kind='cells', n=600, voltage=450, log_fl=True, seed=0, linear_scatter=False, nonneg=False, scatter_out=False, time_order='sorted', voltages=None, few_nonpos=False):
+    def write_fcs(self, name, iid, kind='cells', n=600, voltage=450, log_fl=True, seed=0, linear_scatter=False, nonneg=False, scatter_out=False, time_order='sorted', voltages=None, few_nonpos=False, col_perm=None):
         d = self.inst[iid]
         r = np.random.RandomState(seed)
         names = [d['fsc'], d['ssc']] + d['fl'] + [d['time']]
@@ -116,6 +116,12 @@ class Experiment:
             else:
                 ev = [[f32(v) for v in row] for row in data]
                 widths = [32] * D
+        ranges = [sres, sres] + chres + [res]
+        if col_perm:
+            # the same parameters stored in another column order (another acquisition template of the same instrument)
+            ev = [[row[i] for i in col_perm] for row in ev]
+            names = [names[i] for i in col_perm]
+            ranges = [ranges[i] for i in col_perm]
         pne = {}
         for i, nm in enumerate(names):
             if nm in d['fl'] and log_fl and self.datatype == 'I':
@@ -129,7 +135,7 @@ class Experiment:
         if self.scatter_gain:
             extra += [['$P1G', str(self.scatter_gain)], ['$P2G', str(self.scatter_gain)]]
         spec = {'version': 'FCS3.0', 'delim': '/', 'datatype': self.datatype, 'byteord': '1,2,3,4', 'widths': widths,
-                'ranges': [sres, sres] + chres + [res], 'events': ev, 'names': names, 'pne': pne, 'extra': extra}
+                'ranges': ranges, 'events': ev, 'names': names, 'pne': pne, 'extra': extra}
         b, _ = fcswriter.build(spec)
         path = os.path.join(self.dir, name)
         with open(path, 'wb') as f:
